@@ -206,7 +206,7 @@ def merge(res, parts):
 
 def new_violations(res, prop):
     """violations whose signature is not an open known finding of `prop`"""
-    known = {k["signature"] for k in common.load_known() if k["property"] == prop and k.get("status") == "open"}
+    known = {sg for k in common.load_known() if k["property"] == prop and k.get("status") == "open" for sg in [k["signature"]] + k.get("signatures", [])}
     return [v for v in res.spec_violations if v.get("signature") not in known]
 
 
